@@ -13,7 +13,7 @@ structure Obj where
   bal : Nat
   nonce : Nat
   suicided : Bool
-  dirty : Nat → Option Nat          -- dirtyStorage
+  stor : Nat → Nat                  -- effective storage view: dirtyStorage over the committed store
 
 inductive Entry
   | create (a : Nat)                                  -- createObjectChange
@@ -62,11 +62,11 @@ def DB.new (k : Keeper) : DB :=
 def DB.get (db : DB) (a : Nat) : Option Obj :=
   match db.objs a with
   | some o => some o
-  | none => if db.k.exist a then some { bal := db.k.bal a, nonce := db.k.nonce a, suicided := false, dirty := fun _ => none } else none
+  | none => if db.k.exist a then some { bal := db.k.bal a, nonce := db.k.nonce a, suicided := false, stor := db.k.store a } else none
 
 def DB.getState (db : DB) (a k : Nat) : Nat :=
   match db.get a with
-  | some o => (match o.dirty k with | some v => v | none => db.k.store a k)
+  | some o => o.stor k
   | none => 0
 
 def DB.push (db : DB) (e : Entry) : DB :=
@@ -88,11 +88,29 @@ inductive MOp
   | accAddr (a : Nat)
   | accSlot (a k : Nat)
 
-def mstep (db : DB) : MOp → DB
+/-- getStateObject caches what it loads: a later bank-side change of the account is not seen through the cache -/
+def DB.load (db : DB) (a : Nat) : DB :=
+  match db.objs a with
+  | some _ => db
+  | none =>
+    if db.k.exist a then
+      { db with objs := upd db.objs a (some { bal := db.k.bal a, nonce := db.k.nonce a, suicided := false, stor := db.k.store a }) }
+    else db
+
+/-- the address whose object an operation looks up (access-list operations look up none) -/
+def MOp.addr : MOp → Option Nat
+  | .create a => some a
+  | .setBal a _ => some a
+  | .setNonce a _ => some a
+  | .setState a _ _ => some a
+  | .suicide a => some a
+  | _ => none
+
+def mstepCore (db : DB) : MOp → DB
   | .create a =>
     match db.get a with
     | some _ => db
-    | none => (db.push (.create a)).setObj a { bal := 0, nonce := 0, suicided := false, dirty := fun _ => none }
+    | none => (db.push (.create a)).setObj a { bal := 0, nonce := 0, suicided := false, stor := db.k.store a }
   | .setBal a v =>
     match db.get a with
     | some o => (db.push (.balance a o.bal)).setObj a { o with bal := v }
@@ -104,8 +122,8 @@ def mstep (db : DB) : MOp → DB
   | .setState a k v =>
     match db.get a with
     | some o =>
-      if db.getState a k = v then db
-      else (db.push (.storage a k (db.getState a k))).setObj a { o with dirty := upd o.dirty k (some v) }
+      if o.stor k = v then db
+      else (db.push (.storage a k (o.stor k))).setObj a { o with stor := upd o.stor k v }
     | none => db
   | .setRefund v => { db.push (.refund db.refund) with refund := v }
   | .addLog => { db.push .log with logs := db.logs + 1 }
@@ -117,29 +135,36 @@ def mstep (db : DB) : MOp → DB
   | .accSlot a k =>
     if db.accS a k then db else { db.push (.accSlot a k) with accS := upd db.accS a (upd (db.accS a) k true) }
 
+def mstep (db : DB) (op : MOp) : DB :=
+  match op.addr with
+  | some a => mstepCore (db.load a) op
+  | none => mstepCore db op
+
 /-- JournalEntry.Revert -/
 def undo (db : DB) : Entry → DB
   | .create a => { db with objs := upd db.objs a none }
   | .balance a prev => (match db.get a with | some o => db.setObj a { o with bal := prev } | none => db)
   | .nonce a prev => (match db.get a with | some o => db.setObj a { o with nonce := prev } | none => db)
-  | .storage a k prev => (match db.get a with | some o => db.setObj a { o with dirty := upd o.dirty k (some prev) } | none => db)
+  | .storage a k prev => (match db.get a with | some o => db.setObj a { o with stor := upd o.stor k prev } | none => db)
   | .refund prev => { db with refund := prev }
   | .log => { db with logs := db.logs - 1 }
   | .suicide a prevS prevBal => (match db.get a with | some o => db.setObj a { o with suicided := prevS, bal := prevBal } | none => db)
   | .accAddr a => { db with accA := upd db.accA a false }
   | .accSlot a k => { db with accS := upd db.accS a (upd (db.accS a) k false) }
 
+/-- undo the newest journal entry and lower the dirty count of the address it touched -/
+def undoTop (db : DB) (e : Entry) : DB :=
+  let db1 := undo db e
+  { db1 with dirties := match e.dirtied with
+                        | some a => upd db1.dirties a (db1.dirties a - 1)
+                        | none => db1.dirties }
+
 /-- journal.Revert: undo the entries (newest first) until only `n` are left -/
 def revertEntries (db : DB) : List Entry → Nat → DB
   | [], _ => { db with journal := [] }
   | e :: rest, n =>
-    if (e :: rest).length ≤ n then { db with journal := e :: rest }
-    else
-      let db1 := undo db e
-      let db2 := { db1 with dirties := match e.dirtied with
-                                        | some a => upd db1.dirties a (db1.dirties a - 1)
-                                        | none => db1.dirties }
-      revertEntries db2 rest n
+    if rest.length + 1 ≤ n then { db with journal := e :: rest }
+    else revertEntries (undoTop db e) rest n
 
 def revertJournal (db : DB) (n : Nat) : DB := revertEntries db db.journal n
 
@@ -166,6 +191,9 @@ def addBalance (db : DB) (a x : Nat) : DB :=
   match db1.get a with
   | some o => mstep db1 (.setBal a (o.bal + x))
   | none => db1
+
+/-- a read of an account (GetBalance, GetNonce, GetState, Exist, …): no journal entry, but the object is cached -/
+def read (db : DB) (a : Nat) : DB := db.load a
 
 /-- SubBalance (big.Int: a debit below zero is representable in Go; the EVM never asks for it) -/
 def subBalance (db : DB) (a x : Nat) : DB :=
@@ -202,9 +230,8 @@ def commitOne (db : DB) (k : Keeper) (a : Nat) (keys : List Nat) : Keeper :=
     else
       let k1 := k.setBalance a o.bal
       let k2 := { k1 with exist := upd k1.exist a true, nonce := upd k1.nonce a o.nonce }
-      keys.foldl (fun kk key => match o.dirty key with
-        | some v => { kk with store := upd kk.store a (upd (kk.store a) key v) }
-        | none => kk) k2
+      -- the dirty keys are written; a key that is not dirty already holds its effective value
+      keys.foldl (fun kk key => { kk with store := upd kk.store a (upd (kk.store a) key (o.stor key)) }) k2
 
 /-- Commit: every address with a positive dirty count, in ascending order (`addrs` lists the addresses
     and `keys` the storage keys the run can mention) -/
